@@ -164,8 +164,8 @@ func reachProbes(w *World, s *Sched, prevKeys *[]string) {
 
 func applyCacheFault(w *World, f CacheFault) bool {
 	cr := w.R.VerifCache()
-	if cr == nil {
-		return false
+	if cr == nil || !cr.VerifLockFree() {
+		return false // (a lock still held between two steps was leaked by a request: its own deadlock will be reported)
 	}
 	switch f.Op {
 	case "flush":
